@@ -26,15 +26,16 @@ type Resp struct {
 // Party issues real HTTP calls to the Runtime / Extensions API on behalf of
 // one scripted process and logs call/ret records around each of them.
 type Party struct {
-	Src   string // log source label
-	Addr  string // host:port of the Runtime API
-	Log   *Log
-	Ctx   context.Context // cancelled when the owning process is killed
-	hc    *http.Client
-	tr    *http.Transport
-	ExtID string // Lambda-Extension-Identifier after a successful register
-	mu    sync.Mutex
-	hist  []CallRec
+	Src    string // log source label
+	Addr   string // host:port of the Runtime API
+	Log    *Log
+	Ctx    context.Context // cancelled when the owning process is killed
+	hc     *http.Client
+	tr     *http.Transport
+	ExtID  string // Lambda-Extension-Identifier after a successful register
+	mu     sync.Mutex
+	hist   []CallRec
+	stream io.Reader // body of the next call (slow upload), consumed once
 }
 
 // CallRec is one completed call of a party with its request data.
@@ -106,6 +107,11 @@ func (p *Party) call(op, method, path string, hdr map[string]string, body []byte
 	if body != nil {
 		rd = bytes.NewReader(body)
 	}
+	p.mu.Lock()
+	if p.stream != nil {
+		rd, p.stream = p.stream, nil
+	}
+	p.mu.Unlock()
 	req, err := http.NewRequestWithContext(p.Ctx, method, "http://"+p.Addr+path, rd)
 	if err != nil {
 		r.Err = err
@@ -193,6 +199,16 @@ func (p *Party) Respond(id string, body []byte, hdr map[string]string) *Resp {
 		h[k] = v
 	}
 	return p.Call("response", "POST", rtBase+"/invocation/"+id+"/response", h, body)
+}
+
+// RespondStream posts a response whose body is read from rd as the transport asks for it
+// (chunked upload): the caller decides when the upload ends. logged is what the log records
+// as the body.
+func (p *Party) RespondStream(id string, rd io.Reader, logged []byte) *Resp {
+	p.mu.Lock()
+	p.stream = rd
+	p.mu.Unlock()
+	return p.Call("response", "POST", rtBase+"/invocation/"+id+"/response", map[string]string{"__id": id, "__x_upload": "slow"}, logged)
 }
 
 func (p *Party) Error(id string, body []byte, hdr map[string]string) *Resp {
